@@ -121,20 +121,34 @@ fn all_invocations(reduced: bool) -> Vec<(Entry, Flags)> {
     v
 }
 
-/// The blocks of the product: (layout, all flag combinations?, thorough-only samples too?).
-fn blocks(thorough: bool) -> Vec<(Layout, bool, bool)> {
+#[derive(Clone, Copy, PartialEq, Debug)]
+enum Which {
+    /// one grammar per readable verdict class plus the three unreadable kinds
+    OnePerClass,
+    Quick,
+    All,
+}
+
+/// The blocks of the product: (layout, all flag combinations?, which sample grammars). The first block is
+/// the table of the property; the others repeat its mode-selecting part with other path spellings.
+fn blocks(thorough: bool) -> Vec<(Layout, bool, Which)> {
     if thorough {
-        vec![(Layout::Sep, true, true), (Layout::Same, true, false), (Layout::SepRel, false, true)]
+        vec![(Layout::Sep, true, Which::All), (Layout::Same, false, Which::All), (Layout::SepRel, false, Which::All)]
     } else {
-        vec![(Layout::Sep, true, false), (Layout::Same, false, false)]
+        vec![(Layout::Sep, true, Which::Quick), (Layout::Same, false, Which::OnePerClass)]
     }
+}
+
+fn block_samples(w: Which) -> Vec<Sample> {
+    let one = ["acc-unformatted", "warn-unused-token-W002", "syn-unclosed-paren", "sem-undefined-rule-E003", "missing-file", "directory", "utf8-invalid"];
+    samples(w == Which::All).into_iter().filter(|s| w != Which::OnePerClass || one.contains(&s.name)).collect()
 }
 
 /// (case, sample name) for every point of the product.
 fn product(thorough: bool) -> Vec<(Case, String)> {
     let mut cases = vec![];
-    for (layout, full_flags, all_samples) in blocks(thorough) {
-        for s in samples(all_samples) {
+    for (layout, full_flags, which) in blocks(thorough) {
+        for s in block_samples(which) {
             for (lexer, parser) in [(false, false), (true, false), (false, true), (true, true)] {
                 for out in [OutKind::Default, OutKind::Other, OutKind::Missing, OutKind::File] {
                     for (entry, flags) in all_invocations(!full_flags) {
@@ -408,12 +422,12 @@ fn main() {
 
     // 2. sequences
     let depth = if thorough { 3 } else { 2 };
-    let mut bfs_runs = vec![(Layout::Sep, OutKind::Other)];
+    let mut bfs_runs = vec![(Layout::Sep, OutKind::Other, depth)];
     if thorough {
-        bfs_runs.push((Layout::Same, OutKind::Default));
+        bfs_runs.push((Layout::Same, OutKind::Default, 2)); // all three directories coincide
     }
     let mut bfs_cov = vec![];
-    for (layout, out) in bfs_runs {
+    for (layout, out, depth) in bfs_runs {
         let before = stats.transitions;
         let (n, per_depth) = bfs(&ctx, &mut stats, layout, out, depth, thorough);
         bfs_cov.push(json!({"layout": format!("{layout:?}"), "output_dir": format!("{out:?}"), "depth": depth,
@@ -466,8 +480,8 @@ Product: per block (see bounds.product_blocks) layout x sample grammar x pre-exi
 Sequences: BFS from 2 roots (no skeletons / both skeletons) over the listed alphabet, every action from every distinct state, deduplicated by canonical tree. \
 Non-trivial = the invocation changed at least one file or directory entry, or the grammar verdict was not 'accepted'.",
         "bounds": {"tier": rep.tier, "product_invocations": n_product, "sample_grammars": samples(thorough).iter().map(|s| s.name).collect::<Vec<_>>(),
-            "product_blocks": blocks(thorough).iter().map(|(l, f, a)| json!({"layout": format!("{l:?}"), "all_flags": f,
-                "samples": samples(*a).len(), "invocations": samples(*a).len() * 16 * all_invocations(!f).len()})).collect::<Vec<_>>(), "sequence_depth": depth, "timeout_s": TIMEOUT.as_secs(), "product_wall_s": t_product},
+            "product_blocks": blocks(thorough).iter().map(|(l, f, w)| json!({"layout": format!("{l:?}"), "all_flags": f,
+                "samples": block_samples(*w).len(), "invocations": block_samples(*w).len() * 16 * all_invocations(!f).len()})).collect::<Vec<_>>(), "sequence_depth": depth, "timeout_s": TIMEOUT.as_secs(), "product_wall_s": t_product},
         "worker_seconds_by_phase": {
             "set_up_tree": PHASE_NS[0].load(std::sync::atomic::Ordering::Relaxed) as f64 / 1e9,
             "snapshots": PHASE_NS[1].load(std::sync::atomic::Ordering::Relaxed) as f64 / 1e9,
